@@ -157,6 +157,6 @@ class SweepDecoder3D(BaseDecoder):
 
         for location in flip_locations:
             self.flip_edge(location, new_signs)
-            correction[location] = 'Z'
+            self.code.site(correction, 'Z', location)
 
         return new_signs
